@@ -313,7 +313,7 @@ B_RE = re.compile(r"^/\\ b = (\d+)\s*$")
 INV_RE = re.compile(r"Error: Invariant (\S+) is violated")
 
 
-MAX_SHARD_BYTES = 120 * 1024 * 1024      # a shard is parsed into one TLA+ value by ndJsonDeserialize: keep it small
+MAX_SHARD_BYTES = 40 * 1024 * 1024       # a shard is parsed into one TLA+ value and its states are queued: keep it small
 MAX_PARALLEL_SHARDS = 8
 
 
